@@ -29,6 +29,7 @@ type cobraCmd struct {
 	fields   map[string]string // RunE/Run/PreRunE/PersistentPreRunE/Use -> function name or const
 	parent   string
 	flags    map[string]string // flag name -> variable global name
+	kinds    map[string]string // flag name -> registration method (StringArrayVarP, StringSliceVarP, ...)
 	required map[string]bool
 }
 
@@ -122,6 +123,10 @@ func (c *Ctx) cobraCommands() map[string]*cobraCmd {
 				flagName, _ := constString(a[2])
 				if cc := out[owner]; cc != nil {
 					cc.flags[flagName] = varName
+					if cc.kinds == nil {
+						cc.kinds = map[string]string{}
+					}
+					cc.kinds[flagName] = n[strings.LastIndex(n, ".")+1:]
 				}
 			case n == "(*github.com/spf13/cobra.Command).MarkFlagRequired" || n == "(*github.com/spf13/cobra.Command).MarkPersistentFlagRequired":
 				owner := globalOf(a[0])
@@ -269,6 +274,9 @@ var c20Flags = map[string]map[string]string{
 	"matchProductsCmd": {"link": "linkMetadataPath", "path": "paths", "exclude": "exclude", "lstrip-paths": "lStripPaths"},
 }
 
+// flags whose values are artifact paths / path prefixes / patterns chosen by the user (may contain commas)
+var c20PathListFlags = map[string]bool{"materials": true, "products": true, "path": true, "lstrip-paths": true, "exclude": true}
+
 var c20Required = map[string][]string{"verifyCmd": {"layout", "layout-keys"}, "runCmd": {"name"}, "recordCmd": {"name"}, "signCmd": {"file", "key"}, "matchProductsCmd": {"link"}}
 
 func ruleC20_2(c *Ctx) {
@@ -321,6 +329,14 @@ func ruleC20_2(c *Ctx) {
 		for _, k := range fl {
 			want, got := c20Flags[n][k], cc.flags[k]
 			c.check(want == got && read[got], R, "cmd."+n, "flag --"+k, cc.global.Pos(), "bound to "+got+" (read by a handler)", fmt.Sprintf("flag --%s is bound to variable %q (expected %q; read by a handler: %v)", k, got, want, read[got]))
+		}
+		// flags that take file names are registered as string *arrays*: pflag splits string *slice* values at commas
+		// (CSV), so an artifact path with a comma would be cut into pieces
+		for _, k := range fl {
+			if c20PathListFlags[k] && cc.flags[k] != "" {
+				kind := cc.kinds[k]
+				c.check(strings.HasPrefix(kind, "StringArray"), R, "cmd."+n, "flag --"+k+" takes each value verbatim", cc.global.Pos(), kind, "flag --"+k+" is registered with "+kind+": pflag parses StringSlice values as CSV, so a file name that contains a comma (foo.c,v) is split into several paths")
+			}
 		}
 		for _, k := range c20Required[n] {
 			c.check(cc.required[k], R, "cmd."+n, "flag --"+k+" is required", cc.global.Pos(), "marked required", "flag --"+k+" is not marked required")
